@@ -47,7 +47,9 @@ def observed_names(ctx, desc, lw, case=None):
     rows = 1 if desc["kind"] == "trough" else desc["rows"]
     cols = desc["columns"]
     comp = lw.composition
-    given = desc.get("names") or {}
+    given = {k: v for k, v in (desc.get("names") or {}).items() if v is not None}
+    if any(v is None for v in (desc.get("names") or {}).values()):
+        ctx.count("naming:explicit_none_values")
     names = {}
     ok_one = True
     for r in range(rows):
@@ -276,6 +278,11 @@ def _rename(rng, d):
         d["names"] = {f"{r},{c}": f"{d['name']}@{r}.{c}" for r, c in filled}
     elif mode == "partial":
         d["names"] = {f"{r},{c}": f"named {r}.{c}" for r, c in filled if rng.random() < 0.5} or None
+        if d["names"] is not None and rng.random() < 0.5:
+            # an explicit None means "not named": the default applies
+            for r, c in filled:
+                if f"{r},{c}" not in d["names"] and rng.random() < 0.5:
+                    d["names"][f"{r},{c}"] = None
     else:
         pool = ["water", "stock", "glucose µ"]
         d["names"] = {f"{r},{c}": rng.choice(pool) for r, c in filled}
